@@ -196,6 +196,106 @@ def check_worker_exit(rep, fl, rule="R12.3"):
         rep.check(have == flds_want, rule, fl, owner, "sender fields", "senders held: %s" % sorted(have), "sender fields of %s are %s, expected %s" % (short(owner), sorted(have), sorted(flds_want)))
 
 
+def recv_loop_spins(body, rbi, rt):
+    """Can the loop around the receive at (rbi, rt) go round again although the receive failed?
+    True when a cycle through the receive exists that passes no edge witnessing its success."""
+    loop = {b for b in body.live_blocks() if rbi in body.reachable(b) and b in body.reachable(rbi)}
+    if not loop:
+        return False
+    res = norm(body.call_expr(rt, True))
+    good = set()
+    for b in loop:
+        t = body.term(b)
+        recv_typed = False
+        if t and t["k"] == "switch":
+            d = body.operand_expr(t["d"], expand_vars=False)
+            # a match on a value of type Result<_, RecvError / TryRecvError>: the received message
+            # (futures::select! hands it to the arm through its private result enum)
+            recv_typed = d[0] == "discr" and "RecvError" in d[2] and strip_generics(d[2].split("<")[0]).endswith("result::Result")
+        for tgt, atom, pol in edge_literals(body, b):
+            if atom is None:
+                continue
+            if recv_typed and atom[0] == "variant" and atom[2] == "Ok" and pol:
+                good.add((b, tgt))
+                continue
+            a = norm(body.expand(atom))
+            p2 = pol
+            while a[0] == "un" and a[1] == "Not":
+                a = a[2]
+                p2 = not p2
+            if not mentions(a, res):
+                continue
+            if a[0] == "variant" and ((a[2] in ("Ok", "Continue", "Some", "Ready") and p2) or (a[2] in ("Err", "Break", "None") and not p2)):
+                good.add((b, tgt))
+            elif (is_call(a, "is_ok") or is_call(a, "is_some")) and p2:
+                good.add((b, tgt))
+            elif (is_call(a, "is_err") or is_call(a, "is_none")) and not p2:
+                good.add((b, tgt))
+    # is rbi on a cycle inside `loop` that avoids every good edge?
+    seen = set()
+    todo = [s2 for s2 in body.succs(rbi) if s2 in loop and (rbi, s2) not in good]
+    while todo:
+        b = todo.pop()
+        if b == rbi:
+            return True
+        if b in seen:
+            continue
+        seen.add(b)
+        for s2 in body.succs(b):
+            if s2 in loop and (b, s2) not in good:
+                todo.append(s2)
+    return False
+
+
+def check_recv_loops(rep, fl, rule="R12.3"):
+    """Every receive loop other than a worker's main select (which has a stop arm) ends when its
+    receive fails: once every handle is gone a disconnected channel is always `ready` with Err, so
+    a loop that merely skips a failed receive spins forever and the worker never terminates."""
+    facts = fl.facts
+    other = "r#async" if fl.name == "sync" else "::sync::"
+    n = 0
+    exempt = []
+    # functions that serve a clear request (callees of handle_clear_event)
+    served = {fl.cleaner + "::clean"} if calls_to(clear_handler(fl), fl.cleaner + "::clean") and \
+        {strip_generics(x.raw["root"]) for x in facts.bodies if user_code(x) and calls_to(x, fl.cleaner + "::clean")} == {fl.processor + "::handle_clear_event"} else set()
+    for b in facts.bodies:
+        if not user_code(b) or other in b.spath:
+            continue
+        sites = recv_sites(b)
+        if not sites:
+            continue
+        stops = [bi for bi, t, ch in sites if field_name(ch) == "stop_rx"]
+        if strip_generics(b.raw["root"]) in served:
+            # runs only while a requester is blocked in clear() (it holds a cache handle, hence a
+            # Sender of every channel; R11.1 "release after the resets"; a requester that gave up
+            # because the cache is closed is outlived by the closer, which is blocked handing the
+            # stop signal over): the buffer cannot be disconnected here, and when it is empty the
+            # select's default arm ends the loop
+            exempt.append(b.spath)
+            continue
+        for bi, t, ch in sites:
+            if not b.in_loop(bi):
+                continue
+            # a worker's main select: its stop arm (outside the cycle, it returns) is reachable from here
+            if any(s_ in b.reachable(bi) for s_ in stops):
+                continue
+            n += 1
+            rep.check(not recv_loop_spins(b, bi, t), rule, fl, b, "receive loop on %s ends on failure" % (field_name(ch) or show(ch)),
+                      "the loop goes round again only after a successful receive", "the loop continues after a failed receive: on a disconnected channel (every handle dropped) it spins forever and the worker never terminates",
+                      loc=t["sp"])
+    if exempt:
+        rep.note("%s %s: receive loops of %s not subject to the rule (they run only while a clear() requester holds a handle)" % (rule, fl.cfg, sorted(set(exempt))))
+    if n < 2:
+        rep.missing(rule, fl, "only %d receive loops found (expected the stop-arm drains of the insert buffer and the clear channel)" % n)
+
+
+def field_name(e):
+    e = norm(e)
+    while e and e[0] in ("field",):
+        return e[2] if len(e) > 2 else None
+    return None
+
+
 def check_unwraps(rep, fl, rule="R12.4"):
     """No public cache operation unwraps a Result whose Err is constructible."""
     facts = fl.facts
@@ -230,7 +330,10 @@ def check_C12(rep, fl):
     check_closed_first(rep, fl)
     check_close_sequence(rep, fl)
     check_worker_exit(rep, fl)
+    check_recv_loops(rep, fl)
     check_unwraps(rep, fl)
+    check_wait_release(rep, fl)  # a waiter left blocked by close() is also a C12 matter ("nothing blocks")
+    check_clear_release(rep, fl)  # likewise a clear() (close() itself goes through clear()) left blocked
 
 
 # ----------------------------------------------------------------------------------------
@@ -329,19 +432,12 @@ def check_handle_item_sync(rep, fl, rule="R10.2"):
         rep.check(ok, rule, fl, b, "Wait arm releases", "the Wait arm releases the waiter on every path", "the Wait arm of %s does not release the waiter: wait() never returns" % short(owner + "::handle_item"))
 
 
-def wait_payload_releases_on_drop(fl):
-    """(ok, description): does the payload type of Item::Wait release the waiter in Drop?"""
+def type_releases_on_drop(fl, ty, what):
+    """(ok, description): does type `ty` release a waiter in Drop (done() on every path)?"""
     facts = fl.facts
-    adt = facts.adts.get(fl.item)
-    ty = None
-    for v in adt["variants"]:
-        if v["name"] == "Wait" and v["fields"]:
-            ty = v["fields"][0]["ty"]
-    if ty is None:
-        return False, "Item::Wait has no payload"
     base = strip_generics(ty)
     if base.startswith("wg::"):
-        return False, "Item::Wait carries a bare %s, which does not release its waiters when it is dropped" % base
+        return False, "%s carries a bare %s, which does not release its waiters when it is dropped" % (what, base)
     for imp in facts.impls:
         if imp["trait"] and imp["trait"].endswith("Drop") and strip_generics(imp["self"]) == base:
             # the drop body must call done on every path
@@ -354,6 +450,69 @@ def wait_payload_releases_on_drop(fl):
     return False, "%s has no Drop impl releasing the waiter" % base
 
 
+def wait_payload_releases_on_drop(fl):
+    """(ok, description): does the payload type of Item::Wait release the waiter in Drop?"""
+    facts = fl.facts
+    adt = facts.adts.get(fl.item)
+    ty = None
+    for v in adt["variants"]:
+        if v["name"] == "Wait" and v["fields"]:
+            ty = v["fields"][0]["ty"]
+    if ty is None:
+        return False, "Item::Wait has no payload"
+    return type_releases_on_drop(fl, ty, "Item::Wait")
+
+
+def signal_type_releases_on_drop(fl, field):
+    """The element type of the cache's clear channel releases its requester in Drop."""
+    facts = fl.facts
+    adt = facts.adts.get(fl.cache)
+    ty = None
+    for v in adt["variants"]:
+        for f in v["fields"]:
+            if f["name"] == "clear_tx":
+                ty = f["ty"]
+    if ty is None or "<" not in ty:
+        return False, "no clear_tx field"
+    elem = ty[ty.index("<") + 1:ty.rindex(">")]
+    if strip_generics(elem) in ("()", "bool"):
+        return False, "clear_tx carries %s: the requester cannot be released by the processor" % elem
+    return type_releases_on_drop(fl, elem, "the clear channel")
+
+
+def drain_is_exhaustive(body, drain_bi, drain_t):
+    """The loop around the drain receive is left only when the receive failed (buffer empty /
+    closed): every exit edge of the loop lies on the Err side of that receive."""
+    loop = {b for b in body.live_blocks() if drain_bi in body.reachable(b) and b in body.reachable(drain_bi)}
+    if not loop:
+        return False
+    res = norm(body.call_expr(drain_t, True))
+    ok = True
+    n_exit = 0
+    for b in loop:
+        for s2 in body.succs(b):
+            if s2 in loop:
+                continue
+            n_exit += 1
+            failed = False
+            for tgt, atom, pol in edge_literals(body, b):
+                if tgt != s2 or atom is None:
+                    continue
+                a = norm(body.expand(atom))
+                p2 = pol
+                while a[0] == "un" and a[1] == "Not":
+                    a = a[2]
+                    p2 = not p2
+                if a[0] == "variant" and a[1] == res and ((a[2] == "Err" and p2) or (a[2] == "Ok" and not p2)):
+                    failed = True
+                if is_call(a, "Result::is_ok") and norm(a[2][0]) == res and p2 is False:
+                    failed = True
+                if is_call(a, "Result::is_err") and norm(a[2][0]) == res and p2 is True:
+                    failed = True
+            ok = ok and failed
+    return ok and n_exit >= 1
+
+
 def check_wait_release(rep, fl, rule="R10.3"):
     facts = fl.facts
     leaks = [(b, t, n) for b, bi, t, n in leak_or_dup_calls(facts) if b.spath.startswith(fl.cmod + "::") or b.spath.startswith("cache::")]
@@ -364,16 +523,24 @@ def check_wait_release(rep, fl, rule="R10.3"):
     rep.check(ok, rule, fl, fl.item, "Wait token released on drop", why,
               "%s: a Wait item that is destroyed unhandled (still buffered when the processor takes its stop arm - the select picks at random between a ready buffer and a ready stop channel - "
               "or enqueued after the last drain) never calls done(), so wait() racing close() blocks forever" % why)
-    rx = norm(F(V("self"), "insert_buf_rx"))
+    check_drained_on_stop(rep, fl, rule, "insert_buf_rx", "Wait item")
+    if fl.name != "async":
+        check_recheck_closed(rep, fl, rule, "wait", "insert_buf_tx")
+
+
+def check_drained_on_stop(rep, fl, rule, rxname, what):
+    """Messages still queued on processor.<rxname> when the processor stops are dropped."""
+    facts = fl.facts
+    rx = norm(F(V("self"), rxname))
     if fl.name == "async":
         # async-channel keeps queued messages alive while any Sender exists: the stop arm must drain after closing the receiver
         hc = fl.proc_fn("handle_close_event")
         closes = [(bi, t) for bi, t in hc.calls() if callee_matches(hc.callee_of(t), "Receiver::close") and norm(hc.call_args(t)[0]) == rx]
         drains = [(bi, t) for bi, t, ch in recv_sites(hc) if ch == rx and hc.in_loop(bi)]
-        okd = bool(closes) and bool(drains) and all(block_dominates(hc, closes[0][0], d[0]) for d in drains)
-        rep.check(okd, rule, fl, hc, "drain after close", "the stop arm closes insert_buf_rx (later sends fail) and then drains it, so queued Wait items are dropped (and released)",
-                  "the async stop arm closes insert_buf_rx but never drains it: async-channel keeps queued messages alive while the cache handle holds a Sender, "
-                  "so a queued Wait item is never dropped and its waiter blocks forever")
+        okd = bool(closes) and bool(drains) and all(block_dominates(hc, closes[0][0], d[0]) for d in drains) and all(drain_is_exhaustive(hc, d[0], d[1]) for d in drains)
+        rep.check(okd, rule, fl, hc, "drain %s after close" % rxname, "the stop arm closes %s (later sends fail) and then drains it, so a queued %s is dropped (and its waiter released)" % (rxname, what),
+                  "the async stop arm closes %s but never drains it: async-channel keeps queued messages alive while the cache handle holds a Sender, "
+                  "so a queued %s is never dropped and its waiter blocks forever" % (rxname, what))
         return
     # sync: crossbeam keeps queued messages while a cache handle holds a Sender, and a receiver cannot close the channel
     sp = facts.body(fl.processor + "::spawn")
@@ -386,17 +553,21 @@ def check_wait_release(rep, fl, rule="R10.3"):
         stop_recv = [(bi, t) for bi, t, ch in recv_sites(loop) if ch == norm(F(V("self"), "stop_rx"))][-1]
         drains = [(bi, t) for bi, t, ch in recv_sites(loop) if ch == rx and bi in loop.reachable(stop_recv[0]) and stop_recv[0] not in loop.reachable(bi)]
         # a drain is a receive in a cycle that does not contain the main select
-        okd = any(loop.in_loop(bi) for bi, t in drains)
-    rep.check(okd, rule, fl, loop or sp, "drain on stop", "the stop arm drains the insert buffer before the processor returns, so queued Wait items are dropped (and released)",
-              "the stop arm returns without draining the insert buffer: crossbeam keeps queued messages alive while a cache handle holds a Sender, so a Wait item still queued when the "
-              "processor exits is never dropped and its waiter blocks forever")
-    # a marker can still be enqueued after the final drain: wait() must not block then
-    w = fl.cache_fn("wait")
+        drains = [d for d in drains if loop.in_loop(d[0])]
+        okd = bool(drains) and all(drain_is_exhaustive(loop, d[0], d[1]) for d in drains)
+    rep.check(okd, rule, fl, loop or sp, "drain %s on stop" % rxname, "the stop arm drains %s until the receive fails, before the processor returns, so a queued %s is dropped (and its waiter released)" % (rxname, what),
+              "the stop arm returns without draining %s to the end (no drain, or a drain loop that can stop while messages are still queued): crossbeam keeps queued messages alive while a cache handle holds a Sender, so a %s still queued when the "
+              "processor exits is never dropped and its waiter blocks forever" % (rxname, what))
+
+
+def check_recheck_closed(rep, fl, rule, fnname, txname):
+    """sync: a message can still be enqueued after the final drain: <fnname>() must not block then."""
+    w = fl.cache_fn(fnname)
     at, entry = dataflow(w)
     waits = [(bi, t) for bi, t in w.calls() if callee_matches(w.callee_of(t), "WaitGroup::wait")]
     okr = False
     if len(waits) == 1:
-        ss = send_sites(w)
+        ss = [x for x in send_sites(w) if x[2] == norm(F(V("self"), txname))]
         sts = at.get((waits[0][0], term_idx(w, waits[0][0])), set())
         # after the enqueue, is_closed was re-read and found false: a load that is *after* the send site on the path
         loads_after = [bi for bi, t in w.calls() if is_closed_lit(norm(w.call_expr(t, True))) and ss and bi in w.reachable(ss[0][0]) and block_dominates(w, bi, waits[0][0])]
@@ -410,8 +581,10 @@ def check_wait_release(rep, fl, rule="R10.3"):
                     for tgt, atom, pol in edge_literals(w, bi):
                         if atom is not None and is_closed_lit(norm(w.expand(atom))) and pol is True:
                             okr = waits[0][0] not in w.reachable(tgt)
-    rep.check(okr, rule, fl, w, "re-check closed after enqueue", "wait() re-reads is_closed after enqueueing its marker and does not block when the cache is closed",
-              "wait() blocks on its marker without re-checking is_closed after the enqueue: a marker that arrives after the processor's final drain is never released")
+    rep.check(okr, rule, fl, w, "re-check closed after enqueue", "%s() re-reads is_closed after enqueueing its message and does not block when the cache is closed" % fnname,
+              "%s() blocks on its token without re-checking is_closed after the enqueue: a message that arrives after the processor's final drain is never released" % fnname)
+    if fnname != "wait":
+        return
     c = fl.cache_fn("close")
     stop = [(bi, t) for bi, t, ch, pay in send_sites(c) if ch == norm(F(V("self"), "stop_tx"))]
     st = [(bi, t) for bi, t in calls_to(c, "Atomic::store") if norm(c.call_args(t)[0]) == norm(F(V("self"), "is_closed")) and norm(c.call_args(t)[1]) == ("const", 1, "bool")]
@@ -429,6 +602,18 @@ def check_wait_fn(rep, fl, rule="R10.4"):
     rep.check(ok, rule, fl, b, "try_send", "wait() enqueues its marker with try_send (never blocks on a full buffer)", "wait() does not use a non-blocking try_send on insert_buf_tx")
     if not ss:
         return
+    # on an open cache every path of wait() enqueues the marker: an "empty buffer" shortcut would
+    # return while the processor is still applying the item it dequeued last
+    okall = True
+    for bi in b.live_blocks():
+        t = b.term(bi)
+        if t and t["k"] == "switch" and not any(bi in b.reachable(x[0]) for x in ss):
+            for tgt, atom, pol in edge_literals(b, bi):
+                if atom is not None and is_closed_lit(norm(b.expand(atom))) and pol is False:
+                    okall = okall and must_pass_through(b, [ss[0][0]], from_bi=tgt)
+    rep.check(okall, rule, fl, b, "always enqueues", "on an open cache every path of wait() enqueues its marker (no shortcut that skips the barrier)",
+              "wait() can return without enqueueing its marker although the cache is open (e.g. an `insert buffer is empty` shortcut): the processor may still be applying "
+              "the item it dequeued last, so the caller's earlier insert/remove is not yet visible", loc=ss[0][1]["sp"])
     pay = ss[0][3]
     okp = pay[0] == "agg" and pay[2].endswith("Item::Wait")
     wgs = [s for s in subexprs(pay) if is_call(s, "WaitGroup::add") or is_call(s, "AsyncWaitGroup::add")]
@@ -510,29 +695,147 @@ def check_cleaner(rep, fl, rule="R11.1"):
     rep.check(arm is not None, rule, fl, sp, "clear arm", "the processor loop's clear arm runs the cleaner", "the processor loop never runs the cleaner")
 
 
+def _is_wait(c):
+    return callee_matches(c, "WaitGroup::wait") or callee_matches(c, "AsyncWaitGroup::wait")
+
+
+def _is_signal_ty(ty):
+    return strip_generics(ty).split("::")[-1] == "WaitSignal"
+
+
+def clear_handler(fl):
+    """The processor-side function that serves a clear request."""
+    b = fl.code(fl.processor + "::handle_clear_event")
+    if b is None:
+        raise AnchorMissing("no %s::handle_clear_event" % fl.processor)
+    return b
+
+
 def check_clear(rep, fl, rule="R11.1"):
+    """clear() = request + wait on the client; drain + three resets on the processor, all before
+    the client is released."""
+    import props_cache
+    import props_values
     facts = fl.facts
     b = fl.cache_fn("clear")
-    sig = [(bi, t) for bi, t, ch, pay in send_sites(b) if ch == norm(F(V("self"), "clear_tx"))]
-    pc = calls_to(b, fl.policy + "::clear")
-    sc = calls_to(b, SM + "::clear")
-    mc = calls_to(b, "metrics::Metrics::clear")
-    ok = len(sig) == 1 and len(pc) == 1 and len(sc) == 1 and len(mc) == 1
+    sig = [(bi, t, pay) for bi, t, ch, pay in send_sites(b) if ch == norm(F(V("self"), "clear_tx"))]
+    ok = len(sig) == 1
+    wgs = []
     if ok:
-        errs = [x for x, tt in b.calls() if callee_matches(b.callee_of(tt), "FromResidual::from_residual")]
-        # from the not-closed edge: signal, then all three resets unless the signal failed
-        for bi in b.live_blocks():
-            t = b.term(bi)
-            if t and t["k"] == "switch":
-                for tgt, atom, pol in edge_literals(b, bi):
-                    if atom is not None and is_closed_lit(norm(b.expand(atom))) and pol is False:
-                        for x in (pc, sc, mc):
-                            ok = ok and must_pass_through(b, [x[0][0]] + errs, from_bi=tgt)
-                        ok = ok and must_pass_through(b, [sig[0][0]], from_bi=tgt)
-        ok = ok and norm(b.call_args(pc[0][1])[0]) == norm(F(V("self"), "policy")) and norm(b.call_args(sc[0][1])[0]) == norm(F(V("self"), "store")) \
-            and norm(b.call_args(mc[0][1])[0]) == norm(F(V("self"), "metrics"))
-    rep.check(ok, rule, fl, b, "signal + policy/store/metrics", "clear() signals the processor and resets policy, store and metrics on every successful path",
-              "clear() does not signal the processor and reset policy, store and metrics (signal=%d policy=%d store=%d metrics=%d)" % (len(sig), len(pc), len(sc), len(mc)))
+        pay = sig[0][2]
+        wgs = [x for x in subexprs(pay) if is_call(x, "WaitGroup::add") or is_call(x, "AsyncWaitGroup::add")]
+        ok = pay[0] == "agg" and pay[2].split("::")[-1] in ("WaitSignal", "WaitSignal::WaitSignal") and len(wgs) == 1 and wgs[0][2][1] == ("const", 1, "usize")
+    rep.check(ok, rule, fl, b, "request", "clear() sends one request on clear_tx carrying wg.add(1) of a fresh WaitGroup",
+              "clear() does not send exactly one request carrying a release token on clear_tx (%d sends)" % len(sig))
+    if not ok:
+        return
+    sbi, st_, pay = sig[0]
+    # every open path sends the request
+    okall = True
+    for bi in b.live_blocks():
+        t = b.term(bi)
+        if t and t["k"] == "switch" and bi not in b.reachable(sbi):
+            for tgt, atom, pol in edge_literals(b, bi):
+                if atom is not None and is_closed_lit(norm(b.expand(atom))) and pol is False:
+                    okall = okall and must_pass_through(b, [sbi], from_bi=tgt)
+    rep.check(okall, rule, fl, b, "always requests", "on an open cache every path of clear() sends the request", "clear() can return without asking the processor to clear although the cache is open")
+    # ... and waits for the processor: a path on which the request was sent returns only through
+    # wg.wait() on that group, or because the cache was found closed after the send
+    waits = [(bi, t) for bi, t in b.calls() if _is_wait(b.callee_of(t))]
+    okw = len(waits) == 1
+    if okw:
+        wexp = norm(b.expand(norm(b.call_args(waits[0][1])[0])))
+        okw = wexp == wgs[0][2][0] or mentions(wgs[0], wexp)
+        if fl.name == "async":
+            # the future is awaited
+            res = norm(b.call_expr(waits[0][1], True))
+            okw = okw and any(is_call(norm(b.call_args(t)[0]), "wait") or norm(b.call_args(t)[0]) == res for bi, t in calls_to(b, "IntoFuture::into_future"))
+
+        def lab(bi, t):
+            if t is waits[0][1]:
+                return "wait"
+            if t is st_:
+                return "send"
+            return None
+        outs, at = props_cache.count_paths(b, lab)
+        for s_, cnt in outs:
+            if not cnt.get("send"):
+                continue
+            es = expand_state(b, s_, hist=True)
+            # a path that propagates an error with `?` (the request could not be sent) has nothing to wait for
+            if any(a[0] == "variant" and a[2] == "Break" and v and is_call(a[1], "branch") for a, v in es.lits):
+                continue
+            closed_after = any(is_closed_lit(a) and v for a, v in es.lits)
+            if not cnt.get("wait") and not closed_after:
+                okw = False
+    rep.check(okw, rule, fl, b, "waits for the processor", "after a successful request clear() returns only through wg.wait() on the request's group (or because the cache was closed meanwhile)",
+              "clear() can return before the processor has carried out the clear: an insert made right after clear() is then discarded by the drain, and len()/metrics are not yet reset")
+    # processor side
+    h = clear_handler(fl)
+    cc = calls_to(h, fl.cleaner + "::clean")
+    pc = calls_to(h, fl.policy + "::clear")
+    sc = calls_to(h, SM + "::clear")
+    mc = calls_to(h, "metrics::Metrics::clear")
+    ok = len(cc) == 1 and len(pc) == 1 and len(sc) == 1 and len(mc) == 1
+    if ok:
+        errs = [x for x, tt in h.calls() if callee_matches(h.callee_of(tt), "FromResidual::from_residual")]
+        # the handler does all four unless the request or the drain failed
+        for x in (cc, pc, sc, mc):
+            ok = ok and must_pass_through(h, [x[0][0]] + errs)
+        ok = ok and norm(h.call_args(pc[0][1])[0]) == norm(F(V("self"), "policy")) and norm(h.call_args(sc[0][1])[0]) == norm(F(V("self"), "store")) \
+            and norm(h.call_args(mc[0][1])[0]) == norm(F(V("self"), "metrics"))
+        # the drain precedes the resets: a New item still buffered is reported through on_evict and not re-inserted afterwards
+        ok = ok and all(block_dominates(h, cc[0][0], x[0][0]) for x in (pc, sc, mc))
+    rep.check(ok, rule, fl, h, "drain + policy/store/metrics", "the processor serves a clear request by draining the insert buffer and then resetting policy, store and metrics (every path on which the request and the drain succeeded)",
+              "the clear handler does not drain and reset policy, store and metrics (clean=%d policy=%d store=%d metrics=%d)" % (len(cc), len(pc), len(sc), len(mc)))
+    if not ok:
+        return
+    # release discipline: nothing releases the requester before the last reset
+    work = [x[0][0] for x in (cc, pc, sc, mc)]
+    early = []
+    for bi, t, l, states in props_values.live_drops(fl, h, pred=_is_signal_ty):
+        if any(w in h.reachable(bi) and w != bi for w in work):
+            early.append("drop(%s) at line %d" % (h.local_name.get(l, "_%d" % l), t["sp"]["l"]))
+    for bi, t in h.calls():
+        c = h.callee_of(t)
+        if callee_matches(c, "WaitSignal::done") or callee_matches(c, "WaitGroup::done") or callee_matches(c, "AsyncWaitGroup::done") or callee_matches(c, "mem::drop"):
+            if any(w in h.reachable(bi) and w != bi for w in work):
+                early.append("%s at line %d" % (short(c), t["sp"]["l"]))
+    sigl = [i for i, l in enumerate(h.locals) if _is_signal_ty(l["ty"])]
+    rep.check(not early and bool(sigl), rule, fl, h, "release after the resets", "the request's release token stays alive until policy, store and metrics are reset (%d token locals)" % len(sigl),
+              "the requester is released before the clear is complete (%s): clear() returns while the processor is still draining / resetting" % ", ".join(early))
+    # the processor loop hands the received request to the handler
+    sp = facts.body(fl.processor + "::spawn")
+    arm = None
+    for x in descendants(facts, sp):
+        if user_code(x):
+            for bi, t in calls_to(x, fl.processor + "::handle_clear_event"):
+                arm = (x, bi, t)
+    ok = arm is not None
+    if ok:
+        x, bi, t = arm
+        a = norm(x.expand(norm(x.call_args(t)[1])))
+        rxs = [ch for _, _, ch in recv_sites(x)]
+        has_rx = any(ch == norm(F(V("self"), "clear_rx")) for ch in rxs)
+        # sync: the argument is the select's receive on clear_rx; async: futures::select! routes the
+        # received value through its private result enum, whose payload type (Result<WaitSignal, _>)
+        # is unique to this arm -- the argument must be that payload, not a locally built token
+        ok = has_rx and (mentions(a, norm(F(V("self"), "clear_rx"))) or (fl.name == "async" and a[0] == "field" and a[1][0] == "downcast"))
+    rep.check(ok, rule, fl, sp, "clear arm", "the processor loop's clear arm passes the request it received on clear_rx to handle_clear_event", "the processor loop does not hand the received clear request to handle_clear_event")
+
+
+def check_clear_release(rep, fl, rule="R11.4"):
+    """A clear request that is never served must still release its requester."""
+    facts = fl.facts
+    b = fl.cache_fn("clear")
+    ok, why = signal_type_releases_on_drop(fl, "WaitSignal")
+    rep.check(ok, rule, fl, "WaitSignal", "request token released on drop", why, "%s: a clear request that is destroyed unserved leaves clear() blocked forever" % why)
+    check_drained_on_stop(rep, fl, rule, "clear_rx", "clear request")
+    if fl.name != "async":
+        check_recheck_closed(rep, fl, rule, "clear", "clear_tx")
+
+def check_clear_parts(rep, fl, rule="R11.1"):
+    facts = fl.facts
     # R11.2 policy.clear, store.clear
     pb = fl.policy_fn("clear")
     ac = calls_to(pb, "policy::TinyLFU::clear")
@@ -560,6 +863,8 @@ def check_clear(rep, fl, rule="R11.1"):
 
 def check_C11(rep, fl):
     check_clear(rep, fl)
+    check_clear_parts(rep, fl)
+    check_clear_release(rep, fl)
     check_cleaner(rep, fl)
     check_clear_affinity(rep, fl, rule="R11.3")
     props_store.check_sweeper(rep, fl)
@@ -679,6 +984,25 @@ def check_handle_item_pairing(rep, fl, rule="R06.2", collisions=True):
                     if atom is not None and atom[0] == "variant" and atom[2] == "Some" and is_call(norm(hi.expand(atom[1])), "Iterator::next"):
                         ok = ok and must_pass_through(hi, [vic_rm[0]], from_bi=tgt)
     rep.check(ok, rule, fl, hi, "victim => try_remove(victim.key, 0)", "every victim returned by policy.add is removed from the store", "a victim evicted by the policy is not removed from the store: an entry stays resident without charge")
+    # the victim list is looked at on *every* path after policy.add, admitted or not: add() can
+    # return victims together with `added == false` (it evicts one by one and rejects later)
+    vic_switch = []
+    some_edges = []
+    for bi in hi.live_blocks():
+        t = hi.term(bi)
+        if t and t["k"] == "switch":
+            for tgt, atom, pol in edge_literals(hi, bi):
+                if atom is not None and atom[0] == "variant" and norm(hi.expand(atom[1])) == victims:
+                    vic_switch.append(bi)
+                    if atom[2] == "Some":
+                        some_edges.append(tgt)
+    errs = [x for x, tt in hi.calls() if callee_matches(hi.callee_of(tt), "FromResidual::from_residual")]
+    okv = bool(vic_switch) and must_pass_through(hi, vic_switch + errs, from_bi=adds[0][0])
+    if okv and vic_rm is not None:
+        okv = all(must_pass_through(hi, [vic_rm[0]] + errs + _loop_exits(hi, vic_rm[0]), from_bi=tgt) for tgt in some_edges)
+    rep.check(okv, rule, fl, hi, "victims inspected on every path", "after policy.add the victim list is inspected whether or not the item was admitted",
+              "a path from policy.add to the return skips the victim list (e.g. an early return on rejection): add() may have evicted victims before rejecting, and they stay resident but uncharged",
+              loc=adds[0][1]["sp"])
     # Delete arm
     prm = calls_to(hi, fl.policy + "::remove")
     ok = del_rm is not None and len(prm) == 1
@@ -712,6 +1036,18 @@ def check_handle_item_pairing(rep, fl, rule="R06.2", collisions=True):
               "with two keys sharing an index hash, insert(B) overwrites resident A's charged cost (and B is reported rejected)", loc=adds[0][1]["sp"])
 
 
+def _loop_exits(body, inside_bi):
+    """Blocks outside the loop containing inside_bi that are direct successors of it (the loop's
+    normal exits): reaching them means the iteration finished."""
+    loop = {b for b in body.live_blocks() if inside_bi in body.reachable(b) and b in body.reachable(inside_bi)}
+    out = []
+    for b in loop:
+        for s2 in body.succs(b):
+            if s2 not in loop:
+                out.append(s2)
+    return out
+
+
 def check_remove_pair(rep, fl, rule="R06.3"):
     facts = fl.facts
     b = fl.cache_fn("try_remove")
@@ -732,6 +1068,19 @@ def check_remove_pair(rep, fl, rule="R06.3"):
                 for tgt, atom, pol in edge_literals(b, bi):
                     if atom is not None and is_closed_lit(norm(b.expand(atom))) and pol is False:
                         ok = ok and must_pass_through(b, [ss[0][0]] + errs, from_bi=tgt) and must_pass_through(b, [sr[0][0]], from_bi=tgt)
+    if len(ss) == 1:
+        st = ss[0][1]
+        nonblocking = callee_matches(b.callee_of(st), "Sender::try_send")
+        propagated = False
+        if nonblocking:
+            res = norm(b.call_expr(st, True))
+            for bi2, t2 in b.calls():
+                if callee_matches(b.callee_of(t2), "Try::branch") and mentions(norm(b.call_args(t2)[0]), res):
+                    propagated = True
+        rep.check((not nonblocking) or propagated, rule, fl, b, "Delete marker cannot be lost silently",
+                  "the Delete marker is sent with a blocking / awaited send (or the failure of a non-blocking send is returned to the caller)",
+                  "the Delete marker is sent with try_send and its failure is ignored: with a full insert buffer the entry is removed from the store but the policy keeps "
+                  "charging it (and an earlier buffered set of the key is applied afterwards)", loc=st["sp"])
     rep.check(ok, rule, fl, b, "store.try_remove then Delete{index, conflict}", "remove() deletes from the store at once and queues Delete for the same (index, conflict) on the insert buffer",
               "try_remove does not pair the immediate store removal with a queued Delete of the same (index, conflict)")
     # the removed value goes to on_exit
